@@ -177,6 +177,23 @@ def c15b(ctx, tu):
                    "it comes from: " + ", ".join(sorted(org)))
         ctx.ob("C15.b", f.qe, ok, pattern=short_loc(e.get("loc", "")), unit=tu.name, inst=f.q,
                detail="" if ok else why, witness=None if ok else {"origins": sorted(org)})
+    # the text of a sequence-mismatch report names the matched expectation / destruction: the match_name
+    # parameter of validate_match comes from the reporting object's own name on every call chain
+    for f in tu.find(A["validate_match"]):
+        idx = [i for i, p in enumerate(f.rec["params"]) if p["n"] == "match_name"]
+        if not idx:
+            ctx.ob("C15.b.name", A["validate_match"], None, pattern=f.pat, unit=tu.name, detail="parameter match_name not found")
+            continue
+        org = origins(tu, f, ["param", idx[0], "match_name"])
+        if any(o.endswith("(no caller in unit)") for o in org):
+            continue
+        ok = bool(org) and all(o.startswith("field trompeloeil::call_matcher_base::name of this") or
+                               o.startswith("field trompeloeil::lifetime_monitor::call_name of this") for o in org)
+        streamed = any(e["e"] == "call" and e.get("op") == "<<" and ("'param', %d," % idx[0]) in str(e.get("args"))
+                       for b, e in f.events())
+        ctx.ob("C15.b.name", A["validate_match"], ok and streamed, pattern=f.pat, unit=tu.name,
+               detail="" if ok and streamed else "a sequence-mismatch report must name the expectation (or destruction) that "
+               "was matched out of order; the name comes from: " + ", ".join(sorted(org)))
     return n
 
 
